@@ -17,6 +17,9 @@ use crate::{
     },
 };
 
+// Live texts of the repo's scripts: used ONLY to name the scripts the adapter sends
+// (classification of evidence counters) and for the triage flags. What the fake nodes
+// execute is always the text received over the wire.
 pub const CHECK_LEASE_OWNER: &str =
     include_str!("/repo/crates/fuel-core/redis_leader_lease_adapter_scripts/check_lease_owner.lua");
 pub const RELEASE_LOCK: &str =
@@ -29,6 +32,16 @@ pub const READ_STREAM_ENTRIES: &str =
     include_str!("/repo/crates/fuel-core/redis_leader_lease_adapter_scripts/read_stream_entries.lua");
 pub const READ_LATEST_STREAM_ENTRY: &str =
     include_str!("/repo/crates/fuel-core/redis_leader_lease_adapter_scripts/read_latest_stream_entry.lua");
+
+// Frozen reference copies (the repo snapshot the expectations below were hand-computed
+// for). The conformance check judges the *emulation*, so it must not depend on what the
+// repo's scripts currently say.
+const REF_CHECK_LEASE_OWNER: &str = include_str!("ref_scripts/check_lease_owner.lua");
+const REF_RELEASE_LOCK: &str = include_str!("ref_scripts/release_lock.lua");
+const REF_PROMOTE_LEADER: &str = include_str!("ref_scripts/promote_leader.lua");
+const REF_WRITE_BLOCK: &str = include_str!("ref_scripts/write_block.lua");
+const REF_READ_STREAM_ENTRIES: &str = include_str!("ref_scripts/read_stream_entries.lua");
+const REF_READ_LATEST_STREAM_ENTRY: &str = include_str!("ref_scripts/read_latest_stream_entry.lua");
 
 pub struct T {
     pub db: Db,
@@ -549,31 +562,31 @@ fn repo_scripts(t: &mut T) {
     let s = |x: &str| b(x);
 
     // --- check_lease_owner.lua
-    let r = t.script(CHECK_LEASE_OWNER, &[lock], vec![s("A")]);
+    let r = t.script(REF_CHECK_LEASE_OWNER, &[lock], vec![s("A")]);
     t.expect("check_lease_owner: free lock", r, i(0));
     t.cmd(&["SET", lock, "A", "PX", "200"]);
-    let r = t.script(CHECK_LEASE_OWNER, &[lock], vec![s("A")]);
+    let r = t.script(REF_CHECK_LEASE_OWNER, &[lock], vec![s("A")]);
     t.expect("check_lease_owner: owner", r, i(1));
-    let r = t.script(CHECK_LEASE_OWNER, &[lock], vec![s("B")]);
+    let r = t.script(REF_CHECK_LEASE_OWNER, &[lock], vec![s("B")]);
     t.expect("check_lease_owner: other", r, i(0));
     t.advance_ms(201);
-    let r = t.script(CHECK_LEASE_OWNER, &[lock], vec![s("A")]);
+    let r = t.script(REF_CHECK_LEASE_OWNER, &[lock], vec![s("A")]);
     t.expect("check_lease_owner: expired", r, i(0));
 
     // --- promote_leader.lua
-    let r = t.script(PROMOTE_LEADER, &[lock, epoch], vec![s("A"), s("200")]);
+    let r = t.script(REF_PROMOTE_LEADER, &[lock, epoch], vec![s("A"), s("200")]);
     t.expect("promote: free lock, no epoch yet", r, i(1));
     let r = t.cmd(&["GET", lock]);
     t.expect("promote: lock owner", r, bulk("A"));
     let r = t.cmd(&["PTTL", lock]);
     t.expect("promote: lock ttl", r, i(200));
-    let r = t.script(PROMOTE_LEADER, &[lock, epoch], vec![s("B"), s("200")]);
+    let r = t.script(REF_PROMOTE_LEADER, &[lock, epoch], vec![s("B"), s("200")]);
     t.expect(
         "promote: held lock",
         r,
         Reply::Error("LOCK_HELD: Another leader holds the lock".into()),
     );
-    let r = t.script(PROMOTE_LEADER, &[lock, epoch], vec![s("A"), s("200")]);
+    let r = t.script(REF_PROMOTE_LEADER, &[lock, epoch], vec![s("A"), s("200")]);
     t.expect(
         "promote: held lock, even by the caller",
         r,
@@ -582,30 +595,30 @@ fn repo_scripts(t: &mut T) {
     let r = t.cmd(&["GET", epoch]);
     t.expect("promote: epoch untouched by failed promotions", r, bulk("1"));
     t.advance_ms(201);
-    let r = t.script(PROMOTE_LEADER, &[lock, epoch], vec![s("B"), s("300")]);
+    let r = t.script(REF_PROMOTE_LEADER, &[lock, epoch], vec![s("B"), s("300")]);
     t.expect("promote: after expiry", r, i(2));
     t.cmd(&["SET", epoch, "41"]);
     t.cmd(&["DEL", lock]);
-    let r = t.script(PROMOTE_LEADER, &[lock, epoch], vec![s("A"), s("300")]);
+    let r = t.script(REF_PROMOTE_LEADER, &[lock, epoch], vec![s("A"), s("300")]);
     t.expect("promote: epoch set by a healing write", r, i(42));
 
     // --- release_lock.lua
-    let r = t.script(RELEASE_LOCK, &[lock], vec![s("B")]);
+    let r = t.script(REF_RELEASE_LOCK, &[lock], vec![s("B")]);
     t.expect("release: not the owner", r, i(0));
     let r = t.cmd(&["GET", lock]);
     t.expect("release: lock kept", r, bulk("A"));
-    let r = t.script(RELEASE_LOCK, &[lock], vec![s("A")]);
+    let r = t.script(REF_RELEASE_LOCK, &[lock], vec![s("A")]);
     t.expect("release: owner", r, i(1));
     let r = t.cmd(&["GET", lock]);
     t.expect("release: lock gone", r, Reply::Nil);
-    let r = t.script(RELEASE_LOCK, &[lock], vec![s("A")]);
+    let r = t.script(REF_RELEASE_LOCK, &[lock], vec![s("A")]);
     t.expect("release: already free", r, i(0));
 
     // --- write_block.lua
     let data: Bytes = bytes(&[1u8, 0, 255, 7, 13, 10]);
     let wb = |t: &mut T, ep: &str, owner: &str, h: &str, ttl: &str| {
         t.script(
-            WRITE_BLOCK,
+            REF_WRITE_BLOCK,
             &[stream, epoch, lock],
             vec![s(ep), s(owner), s(h), data.clone(), s(ttl), s("1000")],
         )
@@ -718,9 +731,9 @@ fn repo_scripts(t: &mut T) {
     t.expect_true("no emulation gaps so far", t.db.gaps.is_empty());
 
     // --- read_latest_stream_entry.lua
-    let r = t.script(READ_LATEST_STREAM_ENTRY, &["nostream"], vec![]);
+    let r = t.script(REF_READ_LATEST_STREAM_ENTRY, &["nostream"], vec![]);
     t.expect("read_latest: missing stream", r, arr(vec![]));
-    let r = t.script(READ_LATEST_STREAM_ENTRY, &[stream], vec![]);
+    let r = t.script(REF_READ_LATEST_STREAM_ENTRY, &[stream], vec![]);
     let last_id = t
         .db
         .peek_stream(stream.as_bytes())
@@ -728,13 +741,13 @@ fn repo_scripts(t: &mut T) {
         .unwrap_or_default();
     t.expect("read_latest: newest entry", r, arr(vec![bulk("10"), bulk(&last_id)]));
     t.cmd(&["XADD", "odd", "*", "foo", "bar"]);
-    let r = t.script(READ_LATEST_STREAM_ENTRY, &["odd"], vec![]);
+    let r = t.script(REF_READ_LATEST_STREAM_ENTRY, &["odd"], vec![]);
     t.expect("read_latest: entry without a height field", r, arr(vec![]));
     t.cmd(&["XADD", "odd", "*", "height", "notanumber"]);
-    let r = t.script(READ_LATEST_STREAM_ENTRY, &["odd"], vec![]);
+    let r = t.script(REF_READ_LATEST_STREAM_ENTRY, &["odd"], vec![]);
     t.expect("read_latest: non-numeric height", r, arr(vec![]));
     t.cmd(&["XADD", "odd", "*", "height", "0012"]);
-    let r = t.script(READ_LATEST_STREAM_ENTRY, &["odd"], vec![]);
+    let r = t.script(REF_READ_LATEST_STREAM_ENTRY, &["odd"], vec![]);
     if let Reply::Array(v) = &r {
         t.expect_true("read_latest: height is normalised through tonumber/tostring", v.len() == 2 && v[0] == bulk("12"));
     } else {
@@ -742,13 +755,15 @@ fn repo_scripts(t: &mut T) {
     }
 
     // --- read_stream_entries.lua
-    let ids: Vec<String> = t
+    let mut ids: Vec<String> = t
         .db
         .peek_stream(stream.as_bytes())
         .map(|s| s.entries.iter().map(|e| crate::store::fmt_id(e.id)).collect())
         .unwrap_or_default();
+    t.expect_true("stream has the five expected entries", ids.len() == 5);
+    ids.resize(5, String::from("missing"));
     let ent = |h: i64, ep: i64, id: &str| arr(vec![i(h), i(ep), Reply::Bulk(data.clone()), bulk(id)]);
-    let r = t.script(READ_STREAM_ENTRIES, &[stream], vec![s("8"), s("10")]);
+    let r = t.script(REF_READ_STREAM_ENTRIES, &[stream], vec![s("8"), s("10")]);
     t.expect(
         "read_stream_entries: min height filter, stream order",
         r,
@@ -759,28 +774,53 @@ fn repo_scripts(t: &mut T) {
             ent(10, 4, &ids[4]),
         ]),
     );
-    let r = t.script(READ_STREAM_ENTRIES, &[stream], vec![s("8"), s("1")]);
+    let r = t.script(REF_READ_STREAM_ENTRIES, &[stream], vec![s("8"), s("1")]);
     t.expect("read_stream_entries: count", r, arr(vec![ent(9, 3, &ids[1])]));
-    let r = t.script(READ_STREAM_ENTRIES, &[stream], vec![s("abc"), s("10")]);
+    let r = t.script(REF_READ_STREAM_ENTRIES, &[stream], vec![s("abc"), s("10")]);
     t.expect("read_stream_entries: bad min height", r, arr(vec![]));
-    let r = t.script(READ_STREAM_ENTRIES, &[stream], vec![s("1"), s("0")]);
+    let r = t.script(REF_READ_STREAM_ENTRIES, &[stream], vec![s("1"), s("0")]);
     t.expect("read_stream_entries: zero count", r, arr(vec![]));
-    let r = t.script(READ_STREAM_ENTRIES, &["nostream"], vec![s("1"), s("5")]);
+    let r = t.script(REF_READ_STREAM_ENTRIES, &["nostream"], vec![s("1"), s("5")]);
     t.expect("read_stream_entries: missing stream", r, arr(vec![]));
     t.cmd(&["XADD", "odd2", "*", "height", "3", "data", "d"]);
     t.cmd(&["XADD", "odd2", "*", "height", "4", "epoch", "9"]);
     let odd_id = t
         .db
         .peek_stream(b"odd2")
-        .map(|s| crate::store::fmt_id(s.entries[0].id))
+        .and_then(|s| s.entries.first().map(|e| crate::store::fmt_id(e.id)))
         .unwrap_or_default();
-    let r = t.script(READ_STREAM_ENTRIES, &["odd2"], vec![s("1"), s("5")]);
+    let r = t.script(REF_READ_STREAM_ENTRIES, &["odd2"], vec![s("1"), s("5")]);
     t.expect(
         "read_stream_entries: missing epoch defaults to 0, entries without data are skipped",
         r,
         arr(vec![arr(vec![i(3), i(0), bulk("d"), bulk(&odd_id)])]),
     );
     t.expect_true("no emulation gaps in the six scripts", t.db.gaps.is_empty());
+
+    // --- the same script with the scan's early exit disabled (full scan, as printed in
+    //     docs/poa/failover.md): the duplicate must be rejected
+    let full_scan = REF_WRITE_BLOCK.replace("stop_scan = true", "stop_scan = false");
+    t.expect_true("reference script contains the early exit", full_scan != REF_WRITE_BLOCK);
+    let (stream2, epoch2, lock2) = ("fs:stream", "fs:epoch", "fs:lock");
+    t.cmd(&["SET", lock2, "A", "PX", "5000"]);
+    let wb2 = |t: &mut T, h: &str| {
+        t.script(
+            &full_scan,
+            &[stream2, epoch2, lock2],
+            vec![s("1"), s("A"), s(h), data.clone(), s("5000"), s("1000")],
+        )
+    };
+    for h in ["7", "9", "8"] {
+        let r = wb2(t, h);
+        t.expect_true("full scan: write accepted", matches!(r, Reply::Bulk(_)));
+    }
+    let r = wb2(t, "9");
+    t.expect(
+        "full scan: 9 again is rejected although 8 was appended after it",
+        r,
+        Reply::Error("HEIGHT_EXISTS: Block at height 9 already in stream".into()),
+    );
+    t.expect_true("full scan: stream", t.stream_heights(stream2) == ["7", "9", "8"]);
 }
 
 /// Returns (checks passed, failures).
